@@ -93,6 +93,44 @@ def _producers(body, op, target_re, depth=0, seen=None):
     return out
 
 
+def _sources(body, op, stop_re, depth=0, seen=None):
+    """where the value of `op` comes from: ("call", c) for calls matching stop_re or any call that is not a pure
+    conversion, ("field", names) for a load of a named field, ("param", l), ("const", k)"""
+    seen = seen if seen is not None else set()
+    out = []
+    k = op_const(op)
+    if k is not None:
+        return [("const", k.get("str", k.get("text")))]
+    p = op_place(op)
+    if p is None or depth > 60:
+        return out
+    names = [e.get("n") for e in p["p"] if isinstance(e, dict) and "f" in e and e.get("n")]
+    if names and not any(isinstance(e, dict) and "downcast" in e for e in p["p"]):
+        return [("field", tuple(names))]
+    if p["l"] in seen:
+        return out
+    seen.add(p["l"])
+    ds = body.defs.get(p["l"], [])
+    if not ds:
+        return [("param", p["l"])]
+    for (bb, kind, d) in ds:
+        if kind == "call":
+            if d.matches(stop_re) or not (d.matches(_PASS) and d.args):
+                out.append(("call", d))
+            else:
+                out.extend(_sources(body, d.args[0], stop_re, depth + 1, seen))
+        elif kind == "assign":
+            rv = d["rv"]
+            if rv["k"] in ("use", "cast"):
+                out.extend(_sources(body, rv["op"], stop_re, depth + 1, seen))
+            elif rv["k"] == "ref":
+                out.extend(_sources(body, {"copy": rv["place"]}, stop_re, depth + 1, seen))
+            elif rv["k"] == "agg":
+                for o2 in rv.get("ops", []):
+                    out.extend(_sources(body, o2, stop_re, depth + 1, seen))
+    return out
+
+
 def run(ctx):
     facts = ctx.bin
     P = "C15-R1"
@@ -332,6 +370,14 @@ def run(ctx):
                     parts, fields = [None, None], [["config_dir"], ["source_dir"]]
                 else:
                     fields = fields or [str(x) for x in fj]
+            if sst["rv"]["k"] == "use":
+                srcs = _sources(cn, sst["rv"]["op"], r"^std::path::Path::join$")
+                # the base may also be built as `PathBuf::from(config_dir)` + `push(source_dir)` (path_parts checks the pieces);
+                # what must not happen is that the configured string itself, or anything else, becomes the new source_dir
+                foreign = [x for x in srcs if not (x[0] == "call" and x[1].matches(r"^std::path::Path::join$")) and not (x[0] == "const")
+                           and not (x[0] == "field" and x[1][-1:] == ("config_dir",)) and not (x[0] == "param" and x[1] == 2)]
+                ctx.check(not foreign, P, "join-sole-source", "the rewritten source_dir comes from the join only (other sources: %s)" %
+                          ([("%s %s" % (x[0], x[1].name if x[0] == "call" else x[1])) for x in foreign] or "none"), cn.where(sb))
             ctx.check(parts is not None and fields == [["config_dir"], ["source_dir"]], P, "join-base",
                       "the new source_dir is <config_dir>/<source_dir> (components: %s)" % fields, cn.where(sb))
             ctx.ok(P, "the joined component is the configured source_dir", cn.where(sb))
@@ -350,6 +396,25 @@ def run(ctx):
                             dom = cfg.dominators(cn)
                             sw_ok = rel_arm in dom.get(J_bb, ())
             ctx.check(sw_ok, P, "join-only-relative", "the rewrite happens exactly for a relative source_dir", cn.where(sb))
+            # ... and for *every* relative source_dir: from the relative side of that test no path reaches a return that
+            # hands out a context without passing the rewrite (a fall-back that keeps the path "as given" resolves it
+            # against the current working directory)
+            for c in cn.calls_to(r"::starts_with$|Path::is_absolute$|Path::is_relative$|Path::has_root$"):
+                for bb in sorted(cn.reachable_blocks()):
+                    t = cn.term(bb)
+                    if t["k"] != "switch":
+                        continue
+                    k, pl, neg = trace_bool(cn, t["discr"])
+                    if not (k == "call" and pl.bb == c.bb):
+                        continue
+                    tt, ft = bool_switch_targets(cn, bb)
+                    if neg:
+                        tt, ft = ft, tt
+                    rel_arm = ft if c.matches(r"starts_with$|is_absolute$|has_root$") else tt
+                    rs = cfg.return_shapes(cn, rel_arm, avoid=[J_bb])
+                    escaped = [rb for (rb, sh) in rs if sh is None or sh[0] == 0]
+                    ctx.check(not escaped, P, "join-every-relative", "a relative source_dir is always rewritten before a context is returned (Ok return reachable without the rewrite at: %s)" %
+                              ([cn.where(rb) for rb in escaped] or "none"), cn.where(bb))
         # config_dir field is the config_dir parameter
         okc = False
         for bb in sorted(cn.reachable_blocks()):
@@ -414,6 +479,8 @@ def run(ctx):
         prov = Prov(b)
         for c in b.calls:
             if c.matches(r"^std::fs::|^std::path::Path::exists$"):
+                if not c.args:
+                    continue   # e.g. `OpenOptions::new()`: no path operand here; the path is on the `.open(..)` call
                 ctx.check(edit.has_const_str(prov, c.args[0], edit.LOCK_CONST), P, "lock-fs-path|%s|%s" % (what, c.name.split("::")[-1]),
                           "%s: %s operates on that path" % (what, c.name.split("::")[-1]), c.where())
     if cn is not None:
